@@ -53,17 +53,19 @@ def check_cover(run, tab, ex, jnp, rng, tier):
     M = len(zs)
     classes = {1: ex.etdrk.ETDRK1, 2: ex.etdrk.ETDRK2, 3: ex.etdrk.ETDRK3, 4: ex.etdrk.ETDRK4}
     for p, cls in classes.items():
-        for dt in (1.0, 0.01, 37.0):
+        # (dt, number of contour nodes): the coefficient functions do not depend on how many nodes the contour mean uses (even or odd)
+        for dt, ncp in ((1.0, None), (0.01, None), (37.0, None), (1.0, 17), (0.3, 32), (1.0, 33)):
             for zero_u in (True, False):
                 L = zs / dt
                 outs = [jnp.asarray((rng.standard_normal((1, M)) + 1j * rng.standard_normal((1, M)))) for _ in range(p + 1)]
                 f = FixedOutputs(outs)
-                integ = cls(dt, jnp.asarray(L)[None, :], f)
+                integ = cls(dt, jnp.asarray(L)[None, :], f) if ncp is None else cls(dt, jnp.asarray(L)[None, :], f, num_circle_points=ncp)
                 u = np.zeros((1, M), dtype=complex) if zero_u else (rng.standard_normal((1, M)) + 1j * rng.standard_normal((1, M)))
                 res = np.asarray(integ.step_fourier(jnp.asarray(u)))
                 T = etdrk.Tableau(tab, p, (L * dt)[None, :])
                 npo = [np.asarray(o) for o in outs]
-                key0 = {"kind": "cover", "order": p}
+                key0 = {"kind": "cover", "order": p, "mode": "default contour" if ncp is None else f"{ncp} contour nodes",
+                        "contour": "default" if ncp is None else ("odd" if ncp % 2 else "even")}
                 if len(f.inputs) != p:
                     run.violation(dict(key0, what="number of nonlinear evaluations"), {"got": len(f.inputs)})
                     continue
